@@ -833,14 +833,14 @@ Ltac real_laws :=
     | exact Qcmult_plus_distr_r
     | exact Qcle_refl | exact Qcle_trans | exact Qcplus_le_compat | exact qc_mul_mono
     | exact qmax_ge_l | exact qmax_ge_r | exact qc_0_le_1 | exact qc_nn_mul | exact qc_unit_mul
-    | (intros a b; rewrite !real_pre_iff; apply qc_le_total)
-    | (intros a b c; rewrite !real_pre_iff; apply Qcle_trans)
+    | solve [ intros a b; rewrite !real_pre_iff; apply qc_le_total ]
+    | solve [ intros a b c; rewrite !real_pre_iff; apply Qcle_trans ]
     | exact qmax_cases
     | exact qeq_true
-    | (intros a b H; apply real_le_join in H; tauto)
-    | (intros a b H; apply real_pre_iff; apply qgt_false; exact H)
-    | (intros a b H; apply real_pre_iff; apply Qclt_le_weak; apply qgt_true; exact H)
-    | (intros a b H; apply real_pre_iff; exact H) ].
+    | solve [ intros a b H; apply real_le_join in H; tauto ]
+    | solve [ intros a b H; apply real_pre_iff; apply qgt_false; exact H ]
+    | solve [ intros a b H; apply real_pre_iff; apply Qclt_le_weak; apply qgt_true; exact H ]
+    | solve [ intros a b H; apply real_pre_iff; exact H ] ].
 
 (* the model's functions are the generic ones *)
 Lemma marginal_map_h_searchA n wlo whi p : forall vars lb best cur,
@@ -1222,3 +1222,236 @@ Proof.
         destruct (SUP v') as [E|Hin]; [simpl; auto|congruence|]. specialize (LT v' Hin). lia.
 Qed.
 End Dep.
+
+(* with no query variables the value fold is the plain weighted count (Model/Wmc.v), so the
+   dependency-restricted sum is the unsmoothed count of every ordered reduced diagram, for
+   arbitrary weights *)
+Theorem wmc_dep_unsmoothed {T : Type} (add mul : T -> T -> T) (zero one : T) :
+  (forall a b, mul a b = mul b a) -> (forall a, mul a one = a) ->
+  (forall a b c, mul a (add b c) = add (mul a b) (mul a c)) ->
+  forall (wlo whi : var -> T) (level : var -> nat), (forall u v, level u = level v -> u = v) ->
+  forall vars p c k x, lsorted level vars -> wfb level k p -> (forall u, In u (support p) -> In u vars) ->
+  wmc_c T add mul zero one wlo whi c p =
+  wmc_dep add mul zero one wlo whi vars (fun y => xorb c (den p y)) x.
+Proof.
+  intros MC M1 D wlo whi level LI vars p c k x LS W SUP.
+  assert (E : forall q cc, vfold add mul zero one wlo whi [] (fun _ => false) cc q =
+                           wmc_c T add mul zero one wlo whi cc q).
+  { unfold vfold. induction q as [| |c' v lo IHlo hi IHhi]; intros cc; simpl; [reflexivity|reflexivity|].
+    rewrite <- IHlo, <- IHhi. reflexivity. }
+  rewrite <- E.
+  rewrite (vfold_dep add mul zero one MC M1 D wlo whi level LI [] (fun _ => false) vars LS p c k x W SUP).
+  - apply wmc_dep_local. intros y _. reflexivity.
+  - intros v _ _. right. intros q [].
+Qed.
+
+(* ===================================================================================== *)
+(* ExpectedUtility: bounding order = componentwise <=, non-negative = both components >= 0,  *)
+(* preorder of choose = order of the utility component                                      *)
+Local Open Scope Qc_scope.
+Definition ecle (a b : eu) : Prop := fst a <= fst b /\ snd a <= snd b.
+Definition enn (a : eu) : Prop := 0 <= fst a /\ 0 <= snd a.
+Definition eu_gtb (a b : eu) : bool := qgt (snd a) (snd b).        (* meu_h compares .1 *)
+Definition eu0 : eu := (0, 0).
+Definition eu1 : eu := (1, 0).
+
+Lemma eu_pre_iff a b : pre eu_choose a b <-> snd a <= snd b.
+Proof.
+  unfold pre, eu_choose. destruct (qgt (snd a) (snd b)) eqn:G.
+  - apply qgt_true in G. split; intros H.
+    + subst. exfalso. exact (qclt_irrefl _ G).
+    + exfalso. exact (Qcle_not_lt _ _ H G).
+  - apply qgt_false in G. tauto.
+Qed.
+
+Lemma eu_eqb_true a b : eu_eqb a b = true <-> a = b.
+Proof.
+  destruct a as [a1 a2], b as [b1 b2]. unfold eu_eqb. cbn [fst snd].
+  rewrite andb_true_iff, !qeq_true. split; [intros [-> ->]; reflexivity|intros H; inversion H; auto].
+Qed.
+
+Ltac eu_ring := intros; repeat match goal with x : eu |- _ => destruct x end;
+  unfold eu_add, eu_mul, eu0, eu1; cbn [fst snd]; f_equal; ring.
+
+Lemma eu_add_comm a b : eu_add a b = eu_add b a. Proof. eu_ring. Qed.
+Lemma eu_add_assoc a b c : eu_add (eu_add a b) c = eu_add a (eu_add b c). Proof. eu_ring. Qed.
+Lemma eu_mul_assoc a b c : eu_mul (eu_mul a b) c = eu_mul a (eu_mul b c). Proof. eu_ring. Qed.
+Lemma eu_mul_comm a b : eu_mul a b = eu_mul b a. Proof. eu_ring. Qed.
+Lemma eu_mul_one_r a : eu_mul a eu1 = a. Proof. eu_ring. Qed.
+Lemma eu_mul_zero_r a : eu_mul a eu0 = eu0. Proof. eu_ring. Qed.
+Lemma eu_add_zero_r a : eu_add a eu0 = a. Proof. eu_ring. Qed.
+Lemma eu_distr_l a b c : eu_mul a (eu_add b c) = eu_add (eu_mul a b) (eu_mul a c). Proof. eu_ring. Qed.
+
+Lemma ecle_refl a : ecle a a.
+Proof. split; apply Qcle_refl. Qed.
+Lemma ecle_trans a b c : ecle a b -> ecle b c -> ecle a c.
+Proof. intros [H1 H2] [H3 H4]. split; eapply Qcle_trans; eauto. Qed.
+Lemma eu_add_mono a a' b b' : ecle a a' -> ecle b b' -> ecle (eu_add a b) (eu_add a' b').
+Proof. intros [H1 H2] [H3 H4]. split; cbn [eu_add fst snd]; apply Qcplus_le_compat; auto. Qed.
+Lemma eu_mul_mono w x y : enn w -> ecle x y -> ecle (eu_mul w x) (eu_mul w y).
+Proof.
+  intros [W1 W2] [H1 H2]. split; cbn [eu_mul fst snd].
+  - apply qc_mul_mono; auto.
+  - apply Qcplus_le_compat; apply qc_mul_mono; auto.
+Qed.
+Lemma eu_join_ub_l a b : ecle a (eu_join a b).
+Proof. split; cbn [eu_join fst snd]; apply qmax_ge_l. Qed.
+Lemma eu_join_ub_r a b : ecle b (eu_join a b).
+Proof. split; cbn [eu_join fst snd]; apply qmax_ge_r. Qed.
+Lemma enn_one : enn eu1.
+Proof. split; cbn [eu1 fst snd]; [apply qc_0_le_1|apply Qcle_refl]. Qed.
+Lemma qc_nn_add a b : 0 <= a -> 0 <= b -> 0 <= a + b.
+Proof. intros. replace 0 with (0 + 0) by ring. apply Qcplus_le_compat; auto. Qed.
+Lemma enn_mul a b : enn a -> enn b -> enn (eu_mul a b).
+Proof.
+  intros [A1 A2] [B1 B2]. split; cbn [eu_mul fst snd].
+  - apply qc_nn_mul; auto.
+  - apply qc_nn_add; apply qc_nn_mul; auto.
+Qed.
+Lemma eu_unit_mul a b : enn a -> enn b -> ecle a eu1 -> ecle b eu1 -> ecle (eu_mul a b) eu1.
+Proof.
+  destruct a as [a1 a2], b as [b1 b2]. unfold enn, ecle, eu1. cbn [fst snd eu_mul].
+  intros [A1 A2] [B1 B2] [A3 A4] [B3 B4].
+  assert (a2 = 0) by (apply Qcle_antisym; auto). assert (b2 = 0) by (apply Qcle_antisym; auto). subst.
+  split; [apply qc_unit_mul; auto|]. replace (a1 * 0 + 0 * b1) with 0 by ring. apply Qcle_refl.
+Qed.
+
+Ltac eu_laws_t :=
+  first
+    [ exact eu_add_comm | exact eu_add_assoc | exact eu_mul_assoc | exact eu_mul_comm
+    | exact eu_mul_one_r | exact eu_mul_zero_r | exact eu_add_zero_r | exact eu_distr_l
+    | exact ecle_refl | exact ecle_trans | exact eu_add_mono | exact eu_mul_mono
+    | exact eu_join_ub_l | exact eu_join_ub_r | exact enn_one | exact enn_mul | exact eu_unit_mul
+    | solve [ intros a b; rewrite !eu_pre_iff; apply qc_le_total ]
+    | solve [ intros a b c; rewrite !eu_pre_iff; apply Qcle_trans ]
+    | solve [ intros a b; unfold eu_choose; destruct (qgt (snd a) (snd b)); auto ]
+    | exact eu_eqb_true
+    | solve [ intros a b H; apply eu_le_join in H; tauto ]
+    | solve [ intros a b H; apply eu_pre_iff; apply qgt_false; exact H ]
+    | solve [ intros a b H; apply eu_pre_iff; apply Qclt_le_weak; apply qgt_true; exact H ]
+    | solve [ intros a b H; apply eu_pre_iff; apply H ] ].
+
+Lemma meu_h_searchA wlo whi p : forall vars lb best cur,
+  meu_h_m wlo whi p lb best vars cur = searchA eu_gtb (eu_ub_m wlo whi p) lb best vars cur.
+Proof. reflexivity. Qed.
+Lemma eu_ub_ubp wlo whi p m rest :
+  eu_ub_m wlo whi p m rest = ubp eu_add eu_mul eu0 eu1 eu_join wlo whi p m rest.
+Proof. reflexivity. Qed.
+
+(* the objective of MEU: the dependency-restricted sum of the function restricted to the decision
+   assignment a (the unsmoothed count of its ROBDD under the order listed in vars) *)
+Definition meu_value (wlo whi : var -> eu) (p : bdd) (Q vars : list var) (a : asg) : eu :=
+  wmc_dep eu_add eu_mul eu0 eu1 wlo whi vars (fun y => den p (mix Q a y)) a.
+(* the objective of bb over ExpectedUtility: the same, times the weights of the chosen literals *)
+Definition bbe_value (wlo whi : var -> eu) (p : bdd) (Q vars : list var) (a : asg) : eu :=
+  eu_mul (prodS eu_mul eu1 wlo whi a Q) (meu_value wlo whi p Q vars a).
+
+Section EuOpt.
+Variable n : nat.
+Variables wlo whi : var -> eu.
+Variable p : bdd.
+Variables Q vars : list var.
+Variable level : var -> nat.
+Hypothesis level_inj : forall u v, level u = level v -> u = v.
+Hypothesis WF : wfb level 0 p.
+Hypothesis SORTED : lsorted level vars.          (* vars lists the variables by increasing level *)
+Hypothesis SUP : forall u, In u (support p) -> In u vars.
+Hypothesis NDQ : NoDup Q.
+Hypothesis HQn : forall q, In q Q -> (N.to_nat q < n)%nat.
+(* probabilities and utilities of the chance / reward variables are non-negative *)
+Hypothesis WNN : forall v, In v vars -> ~ In v Q -> enn (wlo v) /\ enn (whi v).
+(* every variable whose two weights do not add up to the unit (1,0) -- in particular every
+   utility-bearing variable -- is ordered after all decision variables *)
+Hypothesis AFTER : forall v, In v vars -> ~ In v Q ->
+  eu_add (wlo v) (whi v) = eu1 \/ forall q, In q Q -> (level q < level v)%nat.
+
+Lemma eu_nnO : forall v, In v (support p) -> ~ In v Q -> enn (wlo v) /\ enn (whi v).
+Proof. intros v Hv. apply WNN. auto. Qed.
+
+Lemma Vp_meu_value a : Vp eu_add eu_mul eu0 eu1 wlo whi Q p a = meu_value wlo whi p Q vars a.
+Proof.
+  unfold Vp, meu_value.
+  rewrite (vfold_dep eu_add eu_mul eu0 eu1 eu_mul_comm eu_mul_one_r eu_distr_l wlo whi level level_inj Q a
+             vars SORTED p false 0%nat a WF SUP AFTER).
+  apply wmc_dep_local. intros y _. unfold Fr. apply xorb_false_l.
+Qed.
+
+Theorem meu_leaf_value_exact m a : Inv Q m [] -> agrees m a ->
+  eu_ub_m wlo whi p m [] = meu_value wlo whi p Q vars a.
+Proof.
+  intros I Ha. rewrite eu_ub_ubp, <- Vp_meu_value. apply ubp_leaf; auto.
+Qed.
+
+Theorem meu_ub_is_upper_bound m rest a : Inv Q m rest -> agrees m a ->
+  ecle (meu_value wlo whi p Q vars a) (eu_ub_m wlo whi p m rest).
+Proof.
+  intros I Ha. rewrite eu_ub_ubp, <- Vp_meu_value.
+  apply (ubp_upper eu_add eu_mul eu0 eu1 eu_join) with (nn := enn); auto; try eu_laws_t; try exact eu_nnO.
+Qed.
+
+(* bnb_optimal, MEU: optimal in the utility component *)
+Theorem meu_optimal :
+  exists v pi, meu_m n wlo whi p Q = Some (v, pi) /\
+    (forall x, pi x <> None <-> In x Q) /\
+    v = meu_value wlo whi p Q vars (asg_of pi) /\
+    forall a, snd (meu_value wlo whi p Q vars a) <= snd v.
+Proof.
+  destruct (from_litvec_all_true n Q HQn) as (m0 & E0 & Hm0).
+  unfold meu_m. rewrite E0.
+  set (r := meu_h_m wlo whi p (eu_ub_m wlo whi p m0 []) m0 Q pm_empty).
+  exists (fst r), (snd r). split; [destruct r; reflexivity|].
+  assert (R := searchA_plain eu_add eu_mul eu0 eu1 eu_join eu_choose eu_gtb).
+  specialize R with (cle := ecle) (nn := enn) (wlo := wlo) (whi := whi) (Q := Q) (p := p) (m0 := m0).
+  destruct R as (R1 & R2 & R3); auto; try eu_laws_t; try exact eu_nnO.
+  change (searchA eu_gtb (ubp eu_add eu_mul eu0 eu1 eu_join wlo whi p)
+            (ubp eu_add eu_mul eu0 eu1 eu_join wlo whi p m0 []) m0 Q pm_empty) with r in R1, R2, R3.
+  split; [exact R2|]. split.
+  - rewrite <- Vp_meu_value. exact R1.
+  - intros a. rewrite <- Vp_meu_value. apply eu_pre_iff. apply R3.
+Qed.
+
+(* --- bb over ExpectedUtility: the decision weights are multiplied in, so they must lie in the
+   unit interval of the semiring: probability in [0,1], utility 0 (the tests use (1,0)) --- *)
+Hypothesis HF_unit : forall q b, In q Q -> enn (wsel wlo whi q b) /\ ecle (wsel wlo whi q b) eu1.
+
+Lemma Vw_bbe_value a : Vw eu_add eu_mul eu0 eu1 wlo whi Q p a = bbe_value wlo whi p Q vars a.
+Proof. unfold Vw, bbe_value. f_equal. apply Vp_meu_value. Qed.
+
+Theorem bb_eu_leaf_value_exact m a : Inv Q m [] -> agrees m a ->
+  bb_ub_m eu_bb n wlo whi p m [] = bbe_value wlo whi p Q vars a.
+Proof.
+  intros I Ha. rewrite bb_ub_ubw by eu_laws_t. rewrite <- Vw_bbe_value.
+  apply (ubw_leaf eu_add eu_mul eu0 eu1 eu_join); auto; eu_laws_t.
+Qed.
+
+Theorem bb_eu_ub_is_upper_bound m rest a : Inv Q m rest -> agrees m a ->
+  ecle (bbe_value wlo whi p Q vars a) (bb_ub_m eu_bb n wlo whi p m rest).
+Proof.
+  intros I Ha. rewrite bb_ub_ubw by eu_laws_t. rewrite <- Vw_bbe_value.
+  apply (ubw_upper eu_add eu_mul eu0 eu1 eu_join) with (cle := ecle) (nn := enn); auto;
+    try eu_laws_t; try exact eu_nnO. exact (wfb_free level 0 p WF).
+Qed.
+
+Theorem bb_eu_optimal :
+  exists v pi, bb_eu_m n wlo whi p Q = Some (v, pi) /\
+    (forall x, pi x <> None <-> In x Q) /\
+    v = bbe_value wlo whi p Q vars (asg_of pi) /\
+    forall a, snd (bbe_value wlo whi p Q vars a) <= snd v.
+Proof.
+  destruct (from_litvec_all_true n Q HQn) as (m0 & E0 & Hm0).
+  unfold bb_eu_m, bb_m. rewrite E0.
+  set (r := bb_h_m eu_bb n wlo whi p (bb_ub_m eu_bb n wlo whi p m0 []) m0 Q pm_empty).
+  exists (fst r), (snd r). split; [destruct r; reflexivity|].
+  assert (R := searchB_weighted eu_add eu_mul eu0 eu1 eu_join eu_choose eu_le eu_eqb).
+  specialize R with (cle := ecle) (nn := enn) (wlo := wlo) (whi := whi) (Q := Q) (n := n) (p := p)
+                    (ub := bb_ub_m eu_bb n wlo whi p) (m0 := m0).
+  destruct R as (R1 & R2 & R3); auto; try eu_laws_t; try exact eu_nnO.
+  { exact (wfb_free level 0 p WF). }
+  { intros m rest. apply (bb_ub_ubw eu_bb); eu_laws_t. }
+  change (searchB eu_choose eu_le eu_eqb (bb_ub_m eu_bb n wlo whi p) (bb_ub_m eu_bb n wlo whi p m0 []) m0 Q pm_empty)
+    with r in R1, R2, R3.
+  split; [exact R2|]. split.
+  - rewrite <- Vw_bbe_value. exact R1.
+  - intros a. rewrite <- Vw_bbe_value. apply eu_pre_iff. apply R3.
+Qed.
+End EuOpt.
